@@ -2,6 +2,7 @@ package updog
 
 import (
 	"container/list"
+	"sync"
 	"unsafe"
 
 	"github.com/RoaringBitmap/roaring"
@@ -56,6 +57,8 @@ type LRUCacheOption func(c *LRUCache)
 // LRUCache is a size-bounded cache with a LRU cache replacement policy. You
 // have to use the NewLRUCache constructor function to create an instance of it.
 type LRUCache struct {
+	mtx sync.Mutex
+
 	entries map[uint64]*list.Element
 	lruList *list.List
 
@@ -74,6 +77,9 @@ func WithCacheMetrics(metrics *CacheMetrics) LRUCacheOption {
 
 // Get returns the bitmap associated with the provided key, if available.
 func (c *LRUCache) Get(key uint64) (*roaring.Bitmap, bool) {
+	c.mtx.Lock()
+	defer c.mtx.Unlock()
+
 	if c.metrics.GetCall != nil {
 		c.metrics.GetCall.Inc()
 	}
@@ -101,6 +107,9 @@ func (c *LRUCache) Get(key uint64) (*roaring.Bitmap, bool) {
 // that the maximum size of the LRU cache is kept, by evicting other cached elements
 // if necessary.
 func (c *LRUCache) Put(key uint64, bm *roaring.Bitmap) {
+	c.mtx.Lock()
+	defer c.mtx.Unlock()
+
 	if c.metrics.PutCall != nil {
 		c.metrics.PutCall.Inc()
 	}
